@@ -59,6 +59,8 @@ def experiments(thorough):
             ('H2/import 2 clients + environment events', 'h2i', [2, 1, 1, 0], 1, 3),
             ('H2/import 2 clients + environment events, asks', 'h2i', [2, 1, 1, 2], 0, 2),
             ('H2/bare interface (one out-event) 2 clients, asks', 'h2b', [2, 1, 0, 2], 1, 2),
+            ('H2/import 2 clients, asks, denied clients send stale releases', 'h2i', [2, 1, 0, 6], 1, 2),
+            ('H2 2 clients + environment events, stale releases', 'h2', [2, 1, 1, 4], 1, 3),
         ]
     else:
         for mode in range(8):
@@ -78,6 +80,9 @@ def experiments(thorough):
             ('H2/import 3 clients, asks', 'h2i', [3, 1, 0, 2], 1, 4),
             ('H2/bare interface (one out-event) 2 clients, asks', 'h2b', [2, 1, 0, 2], 2, 3),
             ('H2/bare interface 2 clients + environment events', 'h2b', [2, 1, 1, 0], 1, 3),
+            ('H2/import 2 clients, asks, stale releases', 'h2i', [2, 1, 0, 6], 2, 3),
+            ('H2/import 3 clients, asks, stale releases', 'h2i', [3, 1, 0, 6], 1, 4),
+            ('H2 2 clients + environment events, stale releases', 'h2', [2, 1, 1, 4], 2, 4),
         ]
     return exps
 
